@@ -2,13 +2,15 @@
 
 1. TLC, exhaustive over bounded scenarios (specs/InitOrder.tla, MCInitOrder.tla): <= 3 objects x <= 3
    entries in .preinit_array / .init_array[.N] / .fini_array[.N] / .ctors[.N] / .dtors[.N] with
-   N in {0, 1, 100, 101, 65534, 65535, ..}, entries sharing a section, archive members with all
-   extraction layouts.  The operational transcription of wild's rule (file order, init_fini_priority,
+   N in {0, 1, 100, 101, 65534, 65535, ..}, entries sharing a section, section types that do not
+   match the name (.init_array* as SHT_PROGBITS, .ctors/.dtors as SHT_INIT/FINI_ARRAY), archive
+   members with all extraction layouts.  The operational transcription of wild's rule (file order, init_fini_priority,
    get_or_create_init_fini_secondary, the stable sort of the secondaries, reversal of .ctors/.dtors
    contents) is compared with the declarative GNU ld rule `Order`:  Conforms (the intended rule =
    Order), DevsLocal (the three recorded deviations of the pinned tree only matter inside their
    declaratively defined classes).  A config in which the pinned transcription is claimed to conform
-   everywhere must be violated (anti-vacuity).
+   everywhere must be violated, and so must a variant that decides the reversal by section TYPE
+   instead of NAME (anti-vacuity).
 2. Replay: a seeded sample of the terminal states is printed as REPLAY records (scenario, Order, the
    prediction of every deviation variant).  Each becomes real assembly -> objects/archive, linked by
    GNU ld (the property's reference) and by wild; the arrays are read back from both outputs with the
@@ -56,9 +58,9 @@ DEV_ORDER = ["maxmerge", "tieinput", "arorder"]
 
 def model_check(ctx, cov):
     if ctx.quick:
-        cfgs = [("mc/InitOrder_quick.cfg", 8, 900, 32)]
+        cfgs = [("mc/InitOrder_quick.cfg", 6, 900, 32)]
     else:
-        cfgs = [("mc/InitOrder_thorough.cfg", 4, 2400, 128), ("mc/InitOrder_thorough_b.cfg", 4, 2400, 128)]
+        cfgs = [("mc/InitOrder_thorough.cfg", 3, 2400, 128), ("mc/InitOrder_thorough_b.cfg", 3, 2400, 128)]
     dev_mod = os.environ.get("VERIF_C30_MOD")      # development aid: thinner sample
     env_for = lambda mod: {"C30_MOD": dev_mod or str(mod), "C30_SEED": str(ctx.seed % 1000003)}  # noqa: E731
 
@@ -67,8 +69,18 @@ def model_check(ctx, cov):
         return c, tlc.run_tlc("MCInitOrder", cfg, workers=workers, timeout=to, env=env_for(mod),
                               jvm_opts=["-XX:ParallelGCThreads=2"])
 
-    with ThreadPoolExecutor(max_workers=len(cfgs)) as ex:
+    def refuted(c):
+        cfg, inv = c
+        return c, tlc.run_tlc("MCInitOrder", cfg, workers=1, timeout=900, coverage=False, env=env_for(1),
+                              jvm_opts=["-XX:ParallelGCThreads=2"])
+
+    # anti-vacuity runs (must be refuted by TLC): "the pinned transcription conforms everywhere", and a
+    # transcription that decides the .ctors/.dtors reversal by section type instead of section name
+    anti = [("mc/InitOrder_deviates.cfg", "PinnedConformsEverywhere"), ("mc/InitOrder_bytype.cfg", "Conforms")]
+    with ThreadPoolExecutor(max_workers=len(cfgs) + len(anti)) as ex:
+        fut_anti = [ex.submit(refuted, c) for c in anti]
         results = list(ex.map(one, cfgs))
+        anti_results = [f.result() for f in fut_anti]
     records, runs = [], []
     states = trans = 0
     for (cfg, _w, to, mod), r in results:
@@ -85,12 +97,10 @@ def model_check(ctx, cov):
         states += r.distinct
         trans += r.generated
         records += r.records
-    # anti-vacuity: "the pinned transcription conforms everywhere" must be refuted by TLC
-    r = tlc.run_tlc("MCInitOrder", "mc/InitOrder_deviates.cfg", workers=2, timeout=600, coverage=False,
-                    env=env_for(1), jvm_opts=["-XX:ParallelGCThreads=2"])
-    if r.ok or r.violated != "PinnedConformsEverywhere":
-        raise ToolError(f"anti-vacuity run was not rejected as expected: ok={r.ok} violated={r.violated} {r.error_text}")
-    runs.append({"cfg": "mc/InitOrder_deviates.cfg", "expected_violation": r.violated, "states_to_find": r.distinct})
+    for (cfg, inv), r in anti_results:
+        if r.ok or r.violated != inv:
+            raise ToolError(f"anti-vacuity run {cfg} was not rejected as expected: ok={r.ok} violated={r.violated} {r.error_text}")
+        runs.append({"cfg": cfg, "expected_violation": r.violated, "states_to_find": r.distinct})
     cov["states"] = states
     cov["transitions"] = trans
     cov["tlc_runs"] = runs
@@ -116,8 +126,13 @@ def predicted(rec):
     return out
 
 
+def sec_label(e):
+    n = io.section_name(e["a"], e["p"])
+    return n if io.entry_type(e) == io.NATIVE_T[e["a"]] else f"{n}@{io.entry_type(e)}"
+
+
 def scn_signature(rec):
-    secs = sorted({io.section_name(e["a"], e["p"]) for ob in rec["objs"] for e in ob["entries"]})
+    secs = sorted({sec_label(e) for ob in rec["objs"] for e in ob["entries"]})
     lay = "ar" if any(ob["member"] for ob in rec["objs"]) else "plain"
     return lay + ":" + ",".join(secs)
 
@@ -140,9 +155,16 @@ def replay_one(rec, d, cache, opts, mutate=None):
     """Build, link with both linkers, observe.  Returns a result dict; raises ToolError if the
     reference side (GNU ld / spec / glue) is not as it must be."""
     d.mkdir(parents=True, exist_ok=True)
-    inputs = io.emit(rec, d, cache=cache)
+    info = {}
+    inputs = io.emit(rec, d, cache=cache, info=info)
     extra, env = opts
     res = {"inputs": [str(p) for p in inputs], "wild_extra": extra, "wild_env": env}
+    # what the objects really contain (read back): array-named sections typed PROGBITS with >= 2 entries,
+    # and .ctors/.dtors typed INIT_ARRAY/FINI_ARRAY with >= 2 entries
+    secs = [x for p in info["objects"].values() for x in io.input_section_types(p)]
+    res["progbits_array_multi"] = sum(1 for n, t, k in secs if not n.startswith((".ctors", ".dtors")) and t == 1 and k >= 2)
+    res["array_typed_legacy_multi"] = sum(1 for n, t, k in secs if n.startswith((".ctors", ".dtors")) and t != 1 and k >= 2)
+    res["retyped"] = {f"o{o}": io.retypes(ob) for o, ob in enumerate(rec["objs"], 1) if io.retypes(ob)}
     exp = predicted(rec)[0][1]
     if mutate == "expectation":            # binding demonstration: corrupt the oracle side
         arr = max(io.OUT_ARRAYS, key=lambda a: len(exp[a]))
@@ -254,6 +276,7 @@ def make_replay_dir(rec, res, case_dir, name, note):
     srcs = io.sources(rec)
     files = {f"src/{k}.s": v for k, v in srcs.items()}
     files["scenario.json"] = json.dumps(rec, indent=1)
+    files["retyped_sections.json"] = json.dumps(res.get("retyped", {}), indent=1)   # sh_type patched after `as`
     meta = {"property": PROP, "note": note, "scenario": rec["objs"],
             "how": "./check C30 --replay <this dir> re-assembles src/*.s, links with GNU ld and wild and compares",
             "inputs_in_link_order": [Path(p).name for p in res.get("inputs", [])],
@@ -313,12 +336,20 @@ def run(ctx):
             v = judge(rec, res, report, "case")
             counts[v] = counts.get(v, 0) + 1
             if len(cov["samples"]) < 4 and (i % 97 == 0 or v != "conform"):
-                cov["samples"].append({"objs": [[io.section_name(e["a"], e["p"]) for e in ob["entries"]] +
+                cov["samples"].append({"objs": [[sec_label(e) for e in ob["entries"]] +
                                                 ([f"member<-{ob['pulledby']}"] if ob["member"] else [])
                                                 for ob in rec["objs"]],
                                        "spec_order=gnu_ld": res["expect"], "wild": res.get("wild_arrays"),
                                        "wild_executed": res.get("wild_run"), "verdict": v,
                                        "wild_options": res["wild_extra"] + [f"{k}={x}" for k, x in res["wild_env"].items()]})
+        # anti-vacuity of the section-type dimension: objects whose .init_array*/.fini_array* input
+        # sections really are SHT_PROGBITS and hold >= 2 entries must have been linked
+        n_pb = sum(1 for r in results if r.get("progbits_array_multi"))
+        n_conv = sum(1 for r in results if r.get("array_typed_legacy_multi"))
+        cov["cases_with_progbits_typed_array_section_of_2+_entries"] = n_pb
+        cov["cases_with_array_typed_ctors_dtors_section_of_2+_entries"] = n_conv
+        if n_pb < 9 or n_conv < 4:      # the always-sampled scenarios alone give 9 and 4
+            raise ToolError(f"too few replayed cases with mistyped multi-entry sections: progbits-array={n_pb} array-legacy={n_conv}")
         # binding demonstration: corrupted oracle / corrupted observation must be reported
         demo = []
         base = next((i for i, (rec, res) in enumerate(zip(records, results))
